@@ -44,7 +44,7 @@ type c14Case struct {
 func (c14Checker) Run(tp *Tapes, opt RunOpt) *Outcome {
 	out := &Outcome{Faults: map[string]int{}}
 	g := tp.Gen
-	sp := GenProgram(g, 6+g.Draw(20))
+	sp := GenProgram(g, 6+g.DrawD(20, 50))
 	cd := GenCtxDesc(g)
 	loaderKind := []string{"fs", "virt", "http"}[g.Draw(3)]
 	disk := progDisk(sp)
